@@ -29,6 +29,8 @@ n = 0
 for op in ops:
     if op[0] == "load":
         ip.run_line_magic(magic_name="load_ext", line="jaxtyping")
+    elif op[0] == "reload":
+        ip.run_line_magic(magic_name="reload_ext", line="jaxtyping")
     elif op[0] == "magic":
         ip.run_line_magic(magic_name="jaxtyping.typechecker", line="vf_spy." + op[1])
     elif op[0] == "cell":
@@ -65,6 +67,10 @@ def ipy_history(draw):
     prev = None
     for _ in range(draw(st.sampled_from([2, 3, 2]))):
         ck = draw(st.sampled_from(["a", "b"])) if prev is None else draw(st.sampled_from([{"a": "b", "b": "a"}[prev], prev, {"a": "b", "b": "a"}[prev]]))
+        if prev is not None and draw(st.integers(0, 2)) == 0:
+            ops.append(["reload"])  # %reload_ext jaxtyping: whatever checker is in force stays in force until the next magic
+            if draw(st.booleans()):
+                ops.append(["cell", draw(st.sampled_from(CELLS))])
         ops.append(["magic", ck])
         prev = ck
         for _ in range(draw(st.sampled_from([1, 2, 1]))):
